@@ -39,11 +39,19 @@ func execNetworkSimplex(g *graph.DGraph, params graph.Params) {
 		},
 	)
 
+	// the layers of the auxiliary graph are the x coordinates of the node centers,
+	// because the minimum lengths of its edges are distances between center points
+	leftmost := math.Inf(1)
 	for _, l := range g.Layers {
 		for _, n := range l.Nodes {
 			l.H = max(l.H, n.H)
-			n.X = float64(p.nodes[n.ID].Layer)
+			n.X = float64(p.nodes[n.ID].Layer) - n.W/2
+			leftmost = min(leftmost, n.X)
 		}
+	}
+	// shift right so that the leftmost node starts at zero
+	for _, n := range g.Nodes {
+		n.X -= leftmost
 	}
 }
 
